@@ -14,9 +14,17 @@ def digest(s: str) -> str:
     return hashlib.sha256(s.encode("utf-8", "surrogatepass")).hexdigest()[:24]
 
 
-def render_case(case, flip: bool = False) -> dict:
+_ICON = []  # a module-level constant of the "application" (created once per process)
+
+
+class _Boom:
+    def _repr_html_(self):
+        raise ValueError("user code failed while rendering")
+
+
+def construct(case):
     import htmltools as h
-    from hv.build import attr_value, build
+    from hv.build import build
 
     objs = [build(r) for r in case["roots"]]
     # API calls applied after construction are part of "the same construction"
@@ -35,6 +43,42 @@ def render_case(case, flip: bool = False) -> dict:
             t.attrs.update({k: v for k, v in op[2]})
         elif op[0] == "append":
             t.append(op[2], [op[2], None, (op[2],)])
+    return objs
+
+
+def render_case(case, flip: bool = False) -> dict:
+    import htmltools as h
+    from hv.build import Tfy, attr_value, build
+
+    objs = construct(case)
+    extra = {}
+    ff = case.get("fail_first")
+    if ff:
+        # history: an earlier rendering of these very objects raised half way (a child that was never expanded - the
+        # documented error - or user code failing in _repr_html_); the cause is then removed
+        t = next((o for o in reversed(objs) if isinstance(o, h.Tag)), None)
+        while t is not None and any(isinstance(c, h.Tag) for c in t.children):
+            t = [c for c in t.children if isinstance(c, h.Tag)][-1]
+        if t is not None:
+            t.append(Tfy({"k": "text", "s": "never expanded"}) if ff == "untagified" else _Boom())
+            try:
+                h.TagList(*objs).get_html_string()
+                failed = False
+            except Exception:  # noqa
+                failed = True
+            t.children.pop()
+            try:
+                ok = h.TagList(*objs).get_html_string() == h.TagList(*construct(case)).get_html_string()
+            except Exception:  # noqa
+                ok = False
+            extra["after_failed_ok"] = bool(failed and ok)
+    # a label built with += from a shared constant: the constant must stay what it is
+    if not _ICON:
+        _ICON.append(h.HTML("<i class='ic'></i>"))
+    lab = _ICON[0]
+    lab += case.get("label", "x<y")
+    lab += h.HTML("<b>!</b>")
+    extra["iadd_label"] = digest(str(h.Tag("span", lab, _ICON[0], _add_ws=False)))
     tl = h.TagList(*objs)
     r = tl.render()
     out = {
@@ -93,6 +137,7 @@ def render_case(case, flip: bool = False) -> dict:
         b_ = h.HTMLDocument(*[build(x) for x in case["roots"]], **kw).render(lib_prefix=lp, include_version=iv)["html"]
         hist.append(a_ == b_)
     out["arg_history_ok"] = all(hist)
+    out.update(extra)
     return out
 
 
@@ -115,7 +160,7 @@ def main() -> int:
         if str(i) in results and results[str(i)] != res:
             mismatches.append(i)
         results[str(i)] = res
-        if mismatches or res.get("arg_history_ok") is False or res.get("doc") != res.get("doc_again") or res.get("page") != res.get("page_again"):
+        if mismatches or res.get("arg_history_ok") is False or res.get("after_failed_ok") is False or res.get("doc") != res.get("doc_again") or res.get("page") != res.get("page_again"):
             break  # an inconsistency inside this process: report at once (a broken library may also get slower and slower)
     json.dump({"results": results, "mismatches": mismatches, "hashseed": __import__("os").environ.get("PYTHONHASHSEED")}, sys.stdout)
     return 0
